@@ -403,7 +403,15 @@ func (in *instr) computeModes(f *ast.File) {
 					if in.isLoc(recv) {
 						if tv, ok := in.info.Types[recv]; ok {
 							if nt, ok := tv.Type.(*types.Named); ok {
-								if _, isStruct := nt.Underlying().(*types.Struct); isStruct && !in.ownPkg(nt.Obj().Pkg()) && !readOnlyMethods[s.Sel.Name] {
+								// only a POINTER-receiver method can modify the value held in
+								// the field; a value-receiver method (time.Time.Unix, ...) reads it
+								ptrRecv := false
+								if fn, ok := msel.Obj().(*types.Func); ok {
+									if sig, ok := fn.Type().(*types.Signature); ok && sig.Recv() != nil {
+										_, ptrRecv = sig.Recv().Type().(*types.Pointer)
+									}
+								}
+								if _, isStruct := nt.Underlying().(*types.Struct); isStruct && ptrRecv && !in.ownPkg(nt.Obj().Pkg()) && !readOnlyMethods[s.Sel.Name] {
 									in.modes[recv] = modeW
 								}
 							}
